@@ -8,7 +8,7 @@ VERIF = os.path.dirname(os.path.dirname(os.path.abspath(__file__)))
 CHECKS = {
     'C01': dict(
         technique='runtime contract monitor at the validate()/is_valid() boundary over hostile generated inputs '
-                  '(sys.monitoring probe on clean(), clock interposition)',
+                  '(sys.monitoring probe on clean(), clock interposition, registry probes, payload sweep) + the repository doctest suite run under the same contract (pytest plugin)',
         text='Every validate()/is_valid() call of a class-by-position workload (hostile characters, foreign digits, '
              'junk objects, size classes, options, clock sweep) over all discovered modules is observed and checked '
              'against the error contract; held means no unlisted stray exception / wrong return kind / disagreement '
@@ -19,7 +19,7 @@ CHECKS = {
 
 CHECKS.update({
     'C02': dict(
-        technique='runtime contract monitor: every accepted validate() result is re-fed to validate() (fixed point, no surrounding whitespace) over generated presentations',
+        technique='runtime contract monitor: every accepted validate() result is re-fed to validate() (fixed point, no surrounding whitespace) over generated presentations, generated GS1 element strings, the repository doctest suite under contracts and a 4-thread replica',
         text='Presentation workload (every pool character at sampled/all positions, prefixes, double inserts, table-driven constant variants, hostile strings, options); every accepted result is re-validated and compared. Held = no unlisted non-fixed-point on the accepted calls counted.',
         note='Accepted presentations are sampled; corpus + synthesised numbers judged valid by the library.', ref='3/C02'),
     'C03': dict(
@@ -43,7 +43,7 @@ CHECKS.update({
         text='All 1,114,112 code points (exhaustive); generated strings x deletechars for order/count/deletion/idempotence; every look-alike of the table substituted/inserted in valid numbers of every module observed to call clean(). Held = all agree.',
         note='Unicode database of the interpreter is the reference; module-level part is sampled over numbers and positions.', ref='3/C14'),
     'C15': dict(
-        technique='runtime contract monitor: validate() results must be ASCII under foreign-digit / foreign-letter substitution at every position',
+        technique='runtime contract monitor: validate() results must be ASCII under foreign-digit / foreign-letter substitution at every position (one number per length/first-character class swept exhaustively), plus the repository doctest suite under contracts',
         text='First two documented numbers of every identifier module are swept exhaustively (every digit position x every same-valued non-table foreign digit, every letter position x letter classes), further numbers seed-sampled. Held = no unlisted non-ASCII result.',
         note='20+ modules of the unchanged tree pass non-ASCII characters through; these are recorded as known findings by (module, character kind).', ref='3/C15'),
 })
